@@ -15,6 +15,7 @@ CONSTANTS
   Modes = {"entity", "cdata"}
   W <- WFixed
   RootKinds = {"inst", "class", "ipath"}
+  EmbPaths = TRUE
 INVARIANT NormIdempotent
 INVARIANT ReqAcceptsNorm
 INVARIANT ImplMeetsReq
